@@ -89,6 +89,13 @@ def run(tier):
         rstep = (rl_to + nparts - 1) // nparts
         for a in range(0, rl_to, rstep):
             scripts.append((name, "scan", a, min(rl_to, a + rstep), "case %s-rscan-%d 600\nhdrscan file:%s %d %d relead\nend\n" % (name, a, path, a, min(rl_to, a + rstep))))
+        # the same on a context that was given an integer option before it was initialised for reading (accepted or refused -
+        # the error is cleared): the uncompressed-source option, which is not restricted to writers, and the header-only option
+        for (po, pv) in ((4, 1), (5, 1)):
+            po_to = hl if (tier == "thorough" or fi % 3 == (po % 3)) else h.lead_size
+            postep = (po_to + nparts - 1) // nparts
+            for a in range(0, po_to, postep):
+                scripts.append((name, "scan", a, min(po_to, a + postep), "case %s-oscan%d-%d 600\nhdrscan file:%s %d %d preopt %d %d\nend\n" % (name, po, a, path, a, min(po_to, a + postep), po, pv)))
         # 2. insertions / deletions with the header length field adjusted (not re-sealed)
         pos = list(range(h.lead_size, hl)) if tier == "thorough" else sorted(rnd.sample(range(h.lead_size, hl), min(40, hl - h.lead_size)))
         for p in pos:
@@ -148,9 +155,10 @@ def run(tier):
                         sealed_vals.append(v)
                 pinargs = script.split("\n")[1].split(" pin ")[1] if " pin " in script else None
                 relead = script.split("\n")[1].endswith(" relead")
+                preopt = (" preopt " + script.split("\n")[1].split(" preopt ")[1]) if " preopt " in script else ""
                 trace.append({"op": "hdrmut", "file": name, "pos": p, "pinned": pinargs is not None, "relead": relead, "accepted": acc.get(p, []), "sealedVals": sealed_vals})
-                owner.append("case x 600\nhdrscan file:%s %d %d%s\nend\n" % (os.path.join(common.REPLAY, "C06-%s.zck" % name), p, p + 1, (" pin " + pinargs) if pinargs else (" relead" if relead else "")))
-                ck.case((name, p, pinargs is not None, relead))
+                owner.append("case x 600\nhdrscan file:%s %d %d%s\nend\n" % (os.path.join(common.REPLAY, "C06-%s.zck" % name), p, p + 1, (" pin " + pinargs) if pinargs else (" relead" if relead else preopt)))
+                ck.case((name, p, pinargs is not None, relead, preopt))
                 ck.evaluations += 254
         else:
             ev = [e for e in ce if e["op"] == "init_read"]
